@@ -68,9 +68,12 @@ def perms(k):
     return [tuple(base[i:] + base[:i]) for i in range(k)] + [tuple(base[::-1])]
 
 
+ALPHA = [0.02]          # current L1 strength of the logistic classifiers (set per case)
+
+
 def fit_one(est, fi, X, y):
     import warnings
-    m = make(est, fi)
+    m = make(est, fi, ALPHA[0])
     with warnings.catch_warnings():
         warnings.simplefilter("ignore")
         m.fit(X, y)
@@ -135,6 +138,7 @@ def dec_close(a, b):
 
 
 def exec_case(case):
+    ALPHA[0] = case.get("alpha", 0.02)
     X = np.array(case["X"], dtype=float)
     k = case["k"]
     est, fi = case["est"], case["fit_intercept"]
@@ -149,6 +153,18 @@ def exec_case(case):
         return [("exception", type(e).__name__ + ": " + str(e)[:120], "fit succeeds")], None
     out += check_model(m, X, P, est)
     d0 = decision(m, P)
+    # the same fit from sparse input (CSR, as users pass it): same decision values
+    import scipy.sparse as sp
+    try:
+        ms = fit_one(est, fi, sp.csr_matrix(X), y)
+        # the logistic loss is strictly convex in the fitted values only: with a rank-deficient design the coefficients are not unique, so
+        # compare on the training rows (hinge SVC: unique primal vector, compare everywhere)
+        Pc, dc = (P, d0) if est in ("LinearSVC", "GLE-SVC") else (X, decision(m, X))
+        ds_ = decision(ms, Pc)
+        if ds_.shape != dc.shape or not bool(np.all(np.abs(ds_ - dc) <= 1e-5 + 1e-5 * np.abs(dc))):
+            out.append(("decision_differs_for_sparse_input", float(np.max(np.abs(ds_ - dc))) if ds_.shape == dc.shape else "shape", "same decision values as the dense fit"))
+    except Exception as e:
+        out.append(("exception_for_sparse_input", type(e).__name__ + ": " + str(e)[:100], "fit succeeds"))
     # relabellings: permute which label names which underlying class
     for perm in perms(k):
         y2 = labels[np.array(perm)[base]]
@@ -225,11 +241,13 @@ def cases(est, tier, chunk=None):
                 sets = label_sets(k) if base is None else label_sets(k)[:2]
                 for lname, labels in sets:
                     for fi in ((True, False) if est in ("SparseLogisticRegression", "GLE-Logistic") else (False,)):
-                        i += 1
-                        if chunk is not None and i % NCHUNK != chunk:
-                            continue
-                        yield dict(est=est, fit_intercept=fi, X=X.tolist(), k=k, labels=labels.tolist(), dtype=str(labels.dtype), lname=lname, xid=xid,
-                                   base=base)
+                        # a second, strong L1 strength: some one-vs-rest rows are intercept-only models
+                        for alpha in ((0.02, 0.25) if (est in ("SparseLogisticRegression", "GLE-Logistic") and lname in ("pm1", "012", "0123")) else (0.02,)):
+                            i += 1
+                            if chunk is not None and i % NCHUNK != chunk:
+                                continue
+                            yield dict(est=est, fit_intercept=fi, X=X.tolist(), k=k, labels=labels.tolist(), dtype=str(labels.dtype), lname=lname, xid=xid,
+                                       base=base, alpha=alpha)
 
 
 def run(task, ctx):
